@@ -38,14 +38,17 @@ struct Registry {
         if (n < N) e[n++] = {static_cast<char *>(p), sz, ++serial};
         unlock();
     }
-    void del(void *p) {
+    long del(void *p) {   // returns the size of the block, -1 if it was not registered
+        long sz = -1;
         lock();
         for (int i = n - 1; i >= 0; i--)
             if (e[i].base == p) {
+                sz = (long)e[i].size;
                 e[i] = e[--n];
                 break;
             }
         unlock();
+        return sz;
     }
     Block find(const void *q) {
         const char *p = static_cast<const char *>(q);
@@ -75,6 +78,55 @@ struct Registry {
     }
 };
 inline Registry g_reg;
+
+// recycling mode (ctl_storage engine st_mtr): a freed block is kept and handed out again, most recently freed first, to the
+// next request of exactly the same size - what a real malloc does and ASan's allocator deliberately never does. Needed to
+// expose code that compares a pointer with a dangling one (the defect repaired by 1b5a79f).
+struct Recycler {
+    static constexpr int N = 4096;
+    struct E {
+        void *p;
+        std::size_t sz;
+    } e[N];
+    int n = 0;
+    bool on = false;
+    std::atomic_flag lk = ATOMIC_FLAG_INIT;
+    void lock() {
+        while (lk.test_and_set(std::memory_order_acquire)) {
+        }
+    }
+    void unlock() { lk.clear(std::memory_order_release); }
+    void *take(std::size_t sz) {
+        void *r = nullptr;
+        lock();
+        for (int i = n - 1; i >= 0; i--)
+            if (e[i].sz == sz) {
+                r = e[i].p;
+                for (int j = i; j + 1 < n; j++) e[j] = e[j + 1];
+                n--;
+                break;
+            }
+        unlock();
+        return r;
+    }
+    bool give(void *p, std::size_t sz) {
+        bool ok = false;
+        lock();
+        if (n < N) {
+            e[n++] = {p, sz};
+            ok = true;
+        }
+        unlock();
+        return ok;
+    }
+    void flush() {
+        lock();
+        for (int i = 0; i < n; i++) std::free(e[i].p);
+        n = 0;
+        unlock();
+    }
+};
+inline Recycler g_rec;
 inline thread_local long tl_news = 0, tl_dels = 0;   // per-thread tallies (ctl: another thread may run in the middle of an op)
 struct tl_mark {
     long n = tl_news, d = tl_dels;
@@ -112,6 +164,21 @@ struct xobj {
     xobj(const xobj &o) : serial(o.serial), pad{o.pad[0], o.pad[1]} { ev(2); }
     ~xobj() { ev(4); }
 };
+// an over-aligned extra object (alignment 16, like anything holding a long double / __int128 / SSE value) ...
+struct alignas(16) xobj16 {
+    long serial;
+    long pad[3];
+    explicit xobj16(long s) : serial(s), pad{s + 1, s + 2, s + 3} { ev(2); }
+    xobj16(const xobj16 &o) : serial(o.serial), pad{o.pad[0], o.pad[1], o.pad[2]} { ev(2); }
+    ~xobj16() { ev(4); }
+};
+// ... and a small one whose size is not a multiple of the pointer size
+struct xobj4 {
+    int serial;
+    explicit xobj4(long s) : serial((int)s) { ev(2); }
+    xobj4(const xobj4 &o) : serial(o.serial) { ev(2); }
+    ~xobj4() { ev(4); }
+};
 
 // ---- the coroutine type: a plain task, frame lifetime under the harness's control ----
 struct task {
@@ -131,6 +198,7 @@ struct task {
 // what the outermost storage saw (thread-local: in ctl runs a thread may be paused inside alloc)
 inline thread_local void *tl_top_ptr = nullptr;
 inline thread_local std::size_t tl_top_sz = 0;
+inline thread_local std::size_t tl_top_dsz = 0;   // size the promise's operator delete handed to the storage
 
 // logs the calls that reach the base policy
 template <typename B>
@@ -158,7 +226,10 @@ struct top : S {
         tl_top_sz = sz;
         return p;
     }
-    static void dealloc(void *p, std::size_t sz) { S::dealloc(p, sz); }
+    static void dealloc(void *p, std::size_t sz) {
+        tl_top_dsz = sz;
+        S::dealloc(p, sz);
+    }
 };
 
 // coroutines with differently sized frames: N bytes of locals that live across the suspension
@@ -173,19 +244,61 @@ cocls::with_allocator<A, task> sized_coro(A &, long *canary_ok, unsigned char se
     *canary_ok = ok;
 }
 
-constexpr int n_classes = 9;
+// the same body as a non-static member function and as a lambda: for these the promise's
+// `operator new(sz, This&, Allocator&, ...)` overload (with_allocator.h:21-24) is selected instead of the first one.
+// Extra parameters make the frame sizes differ from the free-function classes.
+struct host {
+    long tag = 0;
+    template <typename A, std::size_t N>
+    cocls::with_allocator<A, task> member_coro(A &, long *canary_ok, unsigned char seed, long extra) {
+        volatile unsigned char buf[N];
+        for (std::size_t i = 0; i < N; i++) buf[i] = static_cast<unsigned char>(seed + 7 * i + extra);
+        co_await std::suspend_always{};
+        long ok = 1;
+        for (std::size_t i = 0; i < N; i++)
+            if (buf[i] != static_cast<unsigned char>(seed + 7 * i + extra)) ok = 0;
+        *canary_ok = ok;
+    }
+};
+inline host g_host;
+
+template <typename A, std::size_t N>
+std::coroutine_handle<> lambda_coro(A &a, long *canary_ok, unsigned char seed) {
+    static auto lam = [](A &, long *cok, unsigned char sd, long e1, long e2, long e3) -> cocls::with_allocator<A, task> {
+        volatile unsigned char buf[N];
+        for (std::size_t i = 0; i < N; i++) buf[i] = static_cast<unsigned char>(sd + 3 * i + e1 + e2 + e3);
+        co_await std::suspend_always{};
+        long ok = 1;
+        for (std::size_t i = 0; i < N; i++)
+            if (buf[i] != static_cast<unsigned char>(sd + 3 * i + e1 + e2 + e3)) ok = 0;
+        *cok = ok;
+    };
+    return lam(a, canary_ok, seed, 1, 2, 3).h;
+}
+
+constexpr int n_sizes = 9;
+constexpr int n_classes = 3 * n_sizes;   // class k: kind k / 9 (0 free function, 1 member function, 2 lambda), size index k % 9
+template <typename A, std::size_t N>
+std::coroutine_handle<> start_kind(A &a, int kind, long *ok, unsigned char seed) {
+    switch (kind) {
+        case 0: return sized_coro<A, N>(a, ok, seed).h;
+        case 1: return g_host.member_coro<A, N>(a, ok, seed, 5).h;
+        default: return lambda_coro<A, N>(a, ok, seed);
+    }
+}
 template <typename A>
 std::coroutine_handle<> start(A &a, int k, long *ok, unsigned char seed) {
-    switch (k) {
-        case 0: return sized_coro<A, 1>(a, ok, seed).h;
-        case 1: return sized_coro<A, 9>(a, ok, seed).h;
-        case 2: return sized_coro<A, 24>(a, ok, seed).h;
-        case 3: return sized_coro<A, 40>(a, ok, seed).h;
-        case 4: return sized_coro<A, 100>(a, ok, seed).h;
-        case 5: return sized_coro<A, 200>(a, ok, seed).h;
-        case 6: return sized_coro<A, 500>(a, ok, seed).h;
-        case 7: return sized_coro<A, 1000>(a, ok, seed).h;
-        default: return sized_coro<A, 3000>(a, ok, seed).h;
+    int kind = k / n_sizes;
+    switch (k % n_sizes) {
+        case 0: return start_kind<A, 1>(a, kind, ok, seed);
+        case 1: return start_kind<A, 9>(a, kind, ok, seed);
+        case 2: return start_kind<A, 24>(a, kind, ok, seed);
+        case 3: return start_kind<A, 40>(a, kind, ok, seed);
+        case 4: return start_kind<A, 100>(a, kind, ok, seed);
+        case 5: return start_kind<A, 200>(a, kind, ok, seed);
+        case 6: return start_kind<A, 500>(a, kind, ok, seed);
+        case 7: return start_kind<A, 1000>(a, kind, ok, seed);
+        default: return start_kind<A, 3000>(a, kind, ok, seed);
     }
 }
 
@@ -225,7 +338,8 @@ inline std::size_t class_size(int k) {
 }  // namespace sh
 
 void *operator new(std::size_t sz) {
-    void *p = std::malloc(sz ? sz : 1);
+    void *p = (vh::t_count && sh::g_rec.on) ? sh::g_rec.take(sz) : nullptr;
+    if (!p) p = std::malloc(sz ? sz : 1);
     if (!p) throw std::bad_alloc();
     if (vh::t_count) {
         vh::g_news.fetch_add(1, std::memory_order_relaxed);
@@ -243,7 +357,8 @@ void operator delete(void *p) noexcept {
     if (vh::t_count) {
         vh::g_deletes.fetch_add(1, std::memory_order_relaxed);
         sh::tl_dels++;
-        sh::g_reg.del(p);
+        long sz = sh::g_reg.del(p);
+        if (sh::g_rec.on && sz >= 0 && sh::g_rec.give(p, (std::size_t)sz)) return;
     }
     std::free(p);
 }
